@@ -128,6 +128,11 @@ static tree_node_t *mknode(fstree_t *fs, tree_node_t *parent, const char *name,
 		break;
 	case S_IFBLK:
 	case S_IFCHR:
+		if (ent->rdev > 0x0FFFFFFFFUL) {
+			free(n);
+			errno = EOVERFLOW;
+			return NULL;
+		}
 		n->data.devno = ent->rdev;
 		break;
 	case S_IFDIR:
